@@ -15,6 +15,10 @@ from pyvc.sidecar import Kit  # noqa: E402
 from pyvc.solve import discharge  # noqa: E402
 from pyvc.state import Obligation  # noqa: E402
 
+# one consistent set of contracts for every property (order matters: later sidecars refine earlier ones)
+ALL_SIDECARS = ("severity", "results", "externals", "interp", "interp_run", "pickled_inv", "pickled_api", "analysis", "analyses", "loader",
+                "hooks", "ml", "anchoring")
+
 EXIT_OK, EXIT_VIOLATION, EXIT_UNDECIDED, EXIT_ERROR = 0, 1, 2, 3
 
 PYTHON_ASSUMPTIONS = [
@@ -72,7 +76,9 @@ class Run:
     # ---- deciding ---------------------------------------------------------------------------------------------------
     def finish(self):
         obs = self.all_obligations()
+        self.t_build = time.time() - self.t0
         discharge(obs, self.eng.rules, seed=self.seed)
+        self.t_solve = time.time() - self.t0 - self.t_build
         covers = [c for r in self.fn_results for c in r.covers]
         bad_cover = [n for n, ok in covers if not ok]
         if bad_cover:
@@ -133,7 +139,7 @@ class Run:
         nfn = len(self.fn_results)
         print(f"{self.pid}: {len(obs)} obligations over {nfn} functions under contract; discharged "
               f"{sum(1 for o in obs if o.result['verdict'] == 'unsat')}; refuted {len(refuted)} ({len(known_hits)} known); "
-              f"undecided {len(undecided)}; {time.time() - self.t0:.1f}s")
+              f"undecided {len(undecided)}; {time.time() - self.t0:.1f}s (generate {self.t_build:.1f}s, solve {self.t_solve:.1f}s)")
         if violations:
             return EXIT_VIOLATION
         if undecided:
@@ -204,7 +210,8 @@ class Run:
         ev = {
             "property_id": self.pid, "tier": self.tier, "seed": self.seed, "level": "proof",
             "coverage": {
-                "obligations": len(obs), "discharged": discharged,
+                "obligations": len(obs) - len(known_hits), "discharged": discharged,
+                "obligations_including_known_findings": len(obs),
                 "refuted": len(refuted), "refuted_known_findings": len(known_hits), "undecided": len(undecided),
                 "checker_cmd": f"./check {self.pid} --tier {self.tier}",
                 "trusted_base": trusted,
@@ -219,6 +226,7 @@ class Run:
                 "informational": self.informational,
                 "bounded_parts": [{k: v for k, v in bp.items() if k not in ("violations",)} for bp in self.bounded_parts],
                 "notes": self.notes,
+                "time_generate_s": round(getattr(self, "t_build", 0.0), 2), "time_solve_wall_s": round(getattr(self, "t_solve", 0.0), 2),
                 "python_live_import": self.repo.live.get("python"),
             },
             "assumptions": self.assumptions,
